@@ -31,14 +31,14 @@ def tlsflow (impl : String) : P Verdict := do
 /-- `C01.reuse <tls|http> <cut>`: a new connection (SYN with a new ISN, then a whole well-formed message) on a
 4-tuple whose previous connection left an unfinished flow behind, on one analyzer instance `@@` on a fresh one.
 The statement ("after any such input the same instance still analyses a following well-formed input exactly as
-a fresh instance would") demands equality; the flow tables are keyed by the 4-tuple alone and ignore the SYN, so
-the old leftovers can swallow the new connection: open finding `KF.C01.reusedTupleUnfinishedFlow`. -/
+a fresh instance would") demands equality. Both flow tables drop the stale flow on the new connection's SYN
+(repaired: 0099999 TLS, HTTP fix that followed; `Props/C01Reuse`: `tls_syn_resets`, `http_syn_resets`). -/
 def reuse (impl : String) : P Verdict := do
   let kind ← tok; let _ ← nat
   match impl.splitOn " @@ " with
   | [a, b] =>
     pure { modelEq := true, specOk := some (a == b && !(a.splitOn "PANIC").length > 1),
-           kf := ["KF.C01.reusedTupleUnfinishedFlow"], tag := s!"reuse:{kind}:{if a == b then "same" else "differs"}",
+           kf := [], tag := s!"reuse:{kind}:{if a == b then "same" else "differs"}",
            model := "-", spec := "same as on a fresh instance" }
   | _ => pure { modelEq := false, specOk := some false, kf := [], tag := "reuse:bad-output", model := "-", spec := "-" }
 
